@@ -963,15 +963,22 @@ fn copy_default_uvs(
         let mut count = 0_u8;
 
         for unicode_range in default_uvs.ranges() {
-            let mut cur_entry = unicode_range.start_unicode_value().to_u32() - 1;
-            let end = cur_entry + unicode_range.additional_count() as u32 + 2;
+            let start = unicode_range.start_unicode_value().to_u32();
+            let end = start + unicode_range.additional_count() as u32 + 1;
 
-            while let Some(entry) = plan.unicodes.iter_after(cur_entry).next() {
+            // The first retained code point of the range. A range may start at 0, so there is
+            // no `start - 1` to search after.
+            let mut next_entry = if plan.unicodes.contains(start) {
+                Some(start)
+            } else {
+                plan.unicodes.iter_after(start).next()
+            };
+            while let Some(entry) = next_entry {
                 if entry >= end {
                     break;
                 }
 
-                cur_entry = entry;
+                next_entry = plan.unicodes.iter_after(entry).next();
                 if last_code == INVALID_UNICODE_CHAR {
                     last_code = entry;
                     continue;
